@@ -320,6 +320,7 @@ def corrupt(tr, kind, rng):
 
 # ---------------------------------------------------------------- the check
 def run(ctx):
+    ctx.liveness("Merge", unfair_control=not ctx.quick)      # termination under weak fairness (Merge_live.cfg)
     global BASE
     rng = np.random.default_rng(ctx.seed)
     quick = ctx.quick
